@@ -156,6 +156,9 @@ func (g *gen) inboundWire(from string) M {
 		src = "NOBLE"
 	}
 	nonce := g.r.Intn(40)
+	if g.p(0.12) { // the same low bits as a small nonce, 2^32 or 2^63 higher
+		nonce = []int{1000, 2000}[g.r.Intn(2)] + g.r.Intn(8)
+	}
 	if g.p(0.25) {
 		if n, ok := g.usedNonce(src); ok {
 			nonce = n
@@ -409,7 +412,7 @@ func (g *gen) genesis() M {
 		bal[a] = b
 		supply += b
 	}
-	nk := 1 + g.r.Intn(5)
+	nk := 1 + g.r.Intn(8)
 	atts := []any{}
 	for _, i := range g.r.Perm(8)[:nk] {
 		atts = append(atts, M{"key": keyNames[i], "sp": g.pick([]string{"hex", "hex", "0x", "UP"})})
